@@ -113,6 +113,7 @@ func runC02(c *Ctx) {
 	}
 	runLoopCompleteness(c, "C02-R3", []string{"rollback", "removeDoubleSpends", "removeConflict", "deleteUnminedTx", "updateMinedBalance"})
 	checkLoopCarriedStructs(c, "C02-R3", []string{"rollback", "updateMinedBalance"})
+	checkRollbackWalk(c, "C02-R3")
 	checkElementIndexFromOwnLoop(c, "C02-R3", []string{"rollback", "updateMinedBalance", "insertMinedTx", "addCredit"})
 
 	// R4: disconnectBlock reaches Rollback
@@ -129,6 +130,34 @@ func runC02(c *Ctx) {
 		bad := p.mustPassToSuccess(roll, nil, isCallNamed("rollback"), nil)
 		c.Check("C02-R4", "Rollback-always-runs-rollback", roll.Pos(), bad == nil,
 			"Store.Rollback can report success without running rollback (e.g. a shortcut on the block record at exactly the requested height): blocks above a wallet-empty height stay connected after a multi-block reorg")
+	}
+}
+
+
+// checkRollbackWalk: the store's rollback walks down over every block record at or above the target.
+func checkRollbackWalk(c *Ctx, rule string) {
+	// an iterator is repositioned at the record it is standing on (after nested cursors moved it away), not at some other
+	// key: repositioning at the rollback target lands the next prev() below the target and ends the walk after one block
+	if rbf := wtxFn(c, rule, "rollback"); rbf != nil {
+		nRep := 0
+		for _, call := range callsNamed(rbf, "reposition") {
+			nRep++
+			okArg := false
+			if len(call.Call.Args) >= 2 {
+				recv := stripConv(call.Call.Args[0])
+				if _, f, base, okf := fieldOf(stripConv(call.Call.Args[1])); okf && f == "Height" {
+					// elem[.Block].Height of the same iterator
+					for fa, ok := base.(*ssa.FieldAddr); ok; fa, ok = fa.X.(*ssa.FieldAddr) {
+						if _, ef := fieldAddrName(fa); ef == "elem" && stripConv(fa.X) == recv {
+							okArg = true
+						}
+					}
+				}
+			}
+			c.Check(rule, "iterator-repositioned-at-current-record", call.Pos(), okArg,
+				"rollback repositions its block iterator at a height other than that of the record it is standing on: the walk over the blocks being detached ends early (a multi-block rollback detaches only the highest block; the others stay confirmed)")
+		}
+		c.Floor(rule, "iterator repositionings in rollback", nRep, 1)
 	}
 }
 
